@@ -382,7 +382,10 @@ func (c *Check) Finish() int {
 	if len(c.Violations) > 0 {
 		for i, v := range c.Violations {
 			if i >= 25 {
-				fmt.Printf("... %d more violations\n", len(c.Violations)-25)
+				fmt.Printf("... %d more violations:\n", len(c.Violations)-25)
+				for _, w := range c.Violations[25:] {
+					fmt.Printf("  more: case=%s symptom=%s\n", w.CaseID, w.Symptom)
+				}
 				break
 			}
 			p := c.replayDir(v)
